@@ -83,7 +83,7 @@ func (l *Lexer) nextInsideToken() token.Token {
 			tokSplit := strings.Split(tok.Literal, ".")
 			switch {
 			case len(tokSplit) > 2:
-				return l.newIllegalTokenLiteral(token.ILLEGAL, tok.Literal)
+				return l.newIllegalTokenLiteral(token.ILLEGAL, tok.Literal, startLine)
 			case len(tokSplit) == 2:
 				tok.Type = "FLOAT"
 			default:
@@ -217,7 +217,7 @@ func (l *Lexer) nextInsideToken() token.Token {
 			tokSplit := strings.Split(tok.Literal, ".")
 			switch {
 			case len(tokSplit) > 2:
-				return l.newIllegalTokenLiteral(token.ILLEGAL, tok.Literal)
+				return l.newIllegalTokenLiteral(token.ILLEGAL, tok.Literal, startLine)
 			case len(tokSplit) == 2:
 				tok.Type = "FLOAT"
 			default:
@@ -378,6 +378,7 @@ func (l *Lexer) newToken(tokenType token.Type) token.Token {
 	return token.Token{Type: tokenType, Literal: string(l.ch), LineNumber: l.curLine}
 }
 
-func (l *Lexer) newIllegalTokenLiteral(tokenType token.Type, literal string) token.Token {
-	return token.Token{Type: tokenType, Literal: literal, LineNumber: l.curLine}
+func (l *Lexer) newIllegalTokenLiteral(tokenType token.Type, literal string, line int) token.Token {
+	// the line the literal starts on: the read-ahead may already stand behind a newline
+	return token.Token{Type: tokenType, Literal: literal, LineNumber: line}
 }
